@@ -1,7 +1,9 @@
 -- GENERATED: root of the generated-facts library
 import TwigGen.DateFmt
+import TwigGen.ErrFlow
 import TwigGen.MapRanges
 import TwigGen.Prec
+import TwigGen.Sandbox
 import TwigGen.Shared
 import TwigGen.Tokens
 import TwigGen.Writes
